@@ -782,6 +782,24 @@ def _forward_view_of_tags(cad, x):
                 if okc:
                     k, v = r[1]
                     okc = deep_peel(strip_views(k)) == ('field', ('item',), 0) and deep_peel(strip_views(v)) == ('field', ('item',), 1)
+                elif r[0] == 'phi':
+                    # `match k { Some(k) => (Some(k.as_str()), v), None => (None, v) }` is as_deref() written out: both arms,
+                    # the key of the Some arm a view of the item's own key
+                    kinds = set()
+                    okc = True
+                    for leaf in flatten_phi(r):
+                        if not (leaf[0] == 'tuple' and len(leaf[1]) == 2 and deep_peel(strip_views(leaf[1][1])) == ('field', ('item',), 1)):
+                            okc = False
+                            break
+                        k = peel(leaf[1][0])
+                        if k[0] == 'adt' and k[2] == 'None':
+                            kinds.add('None')
+                        elif k[0] == 'adt' and k[2] == 'Some' and \
+                                deep_peel(strip_views(dict(k[3])['0'])) == ('field', ('payload', ('field', ('item',), 0), 'Some'), '0'):
+                            kinds.add('Some')
+                        else:
+                            okc = False
+                    okc = okc and kinds == {'None', 'Some'}
                 if not okc:
                     return False, 'the mapping closure does not return (view of key, view of value): %s' % fmt(r)[:80]
                 y = y[2][0]
